@@ -362,6 +362,22 @@ fixedArrayFromBuffer (PyObject *obj)
         throw std::invalid_argument ("Unsupported buffer type");
     }
 
+    // The source must describe exactly ArrayT's elements: same scalar type
+    // and size, same dimensionality and width, C-contiguous. Anything else
+    // would be reinterpreted, or copied past the end of the new array.
+    typedef typename ArrayT::BaseType BaseT;
+    const char *fmt = (view.format[0] == '@') ? view.format + 1 : view.format;
+    if (strcmp (fmt, PyFormat<BaseT>()) != 0 ||
+        view.itemsize != FixedArrayAtomicSize<BaseT>::value ||
+        view.ndim != FixedArrayDimension<BaseT>::value ||
+        (view.ndim == 2 && view.shape[1] != FixedArrayWidth<BaseT>::value) ||
+        !PyBuffer_IsContiguous (&view, 'C') ||
+        view.len != view.shape[0] * Py_ssize_t (sizeof (BaseT)))
+    {
+        PyBuffer_Release(&view);
+        throw std::invalid_argument ("Buffer element type, shape or layout does not match the array type");
+    }
+
     ArrayT *array = new ArrayT (view.shape[0], PyImath::UNINITIALIZED);
     memcpy (reinterpret_cast<void*>(&array->direct_index(0)), view.buf, view.len);
     PyBuffer_Release(&view);
